@@ -188,7 +188,12 @@ class AbstractTreeName(AbstractNameDefinition):
                 for value in value_set:
                     for signature in value.get_signatures():
                         for param_name in signature.get_param_names():
-                            if param_name.string_name == name.value:
+                            # `f(x=1)` never binds `*x`, `**x` or a
+                            # positional-only `x`.
+                            if param_name.string_name == name.value \
+                                    and param_name.get_kind() in (
+                                        Parameter.POSITIONAL_OR_KEYWORD,
+                                        Parameter.KEYWORD_ONLY):
                                 param_names.append(param_name)
                 return param_names
         elif node_type == 'dotted_name':  # Is a decorator.
